@@ -31,7 +31,11 @@ IsPhase(m)   == m \in {M_PRE_UPDATE, M_UPDATE, M_POST_UPDATE, M_PRE_REACT, M_REA
 IsPlanCb(m)  == m \in {M_PLAN_SUCCEEDED, M_PLAN_FAILED}
 
 Order(e) == SubOrder(e.m, e.s)
-DStart(e) == Order(e) # <<>> /\ e.j = Order(e)[1]
+\* C15 fixes the order of the sub-deliveries (injections, the class itself) for every callback except exitGuard and query: for
+\* these two only "each exactly once" is required, so any permutation is accepted
+AnyOrder(m) == m \in {M_EXIT_GUARD, M_QUERY}
+Members(e) == {Order(e)[q] : q \in 1 .. Len(Order(e))}
+DStart(e) == Order(e) # <<>> /\ (IF AnyOrder(e.m) THEN e.j \in Members(e) ELSE e.j = Order(e)[1])
 DEnd(e)   == Order(e) # <<>> /\ e.j = Last(Order(e))
 
 HasAct(acts, kind) == \E i \in 1 .. Len(acts) : acts[i].k = kind
@@ -113,7 +117,7 @@ TkInit == [
     ent |-> NONE, rootin |-> FALSE,                     \* enter/exit pairing
     stage |-> "pre",        \* within a call: pre, phase, plancb, guard, life
     dseq |-> <<>>, life |-> <<>>,                       \* deliveries / lifecycle deliveries (of states) of this call
-    dm |-> 0, ds |-> NONE, dpos |-> 0,                  \* current delivery and position in its sub-delivery order
+    dm |-> 0, ds |-> NONE, dpos |-> 0, dseen |-> {},    \* current delivery, number of sub-deliveries so far and which ones
     lastacts |-> <<>>,                                  \* acts of the previous callback
     lastreq |-> NoT,                                    \* the most recent request (re-synchronised from every view)
     inround |-> FALSE, rpend |-> NoT, rcancel |-> FALSE, rfirst |-> FALSE,
@@ -125,7 +129,8 @@ TkInit == [
     phases |-> 0,
     desync |-> 0 ]          \* lowest structural level violated in this call (0 = none): the rest of the call is not interpreted
 
-Cont(tk, e) == tk.dpos > 0 /\ tk.dm = e.m /\ tk.ds = e.s /\ tk.dpos < Len(Order(e)) /\ Order(e)[tk.dpos + 1] = e.j
+Cont(tk, e) == /\ tk.dpos > 0 /\ tk.dm = e.m /\ tk.ds = e.s /\ tk.dpos < Len(Order(e))
+               /\ IF AnyOrder(e.m) THEN e.j \in Members(e) \ tk.dseen ELSE Order(e)[tk.dpos + 1] = e.j
 
 \* a round of guards ends: remember whether its pending transition survived
 EndRound(tk) ==
@@ -166,8 +171,8 @@ TkCall(tk, e) ==
 
 TkCb(tk, e) ==
     LET cont == Cont(tk, e)
-        t1   == IF cont THEN [tk EXCEPT !.dpos = @ + 1]
-                ELSE [tk EXCEPT !.dm = e.m, !.ds = e.s, !.dpos = 1, !.dseq = Append(@, <<e.m, e.s>>)]
+        t1   == IF cont THEN [tk EXCEPT !.dpos = @ + 1, !.dseen = @ \cup {e.j}]
+                ELSE [tk EXCEPT !.dm = e.m, !.ds = e.s, !.dpos = 1, !.dseen = {e.j}, !.dseq = Append(@, <<e.m, e.s>>)]
         t2   == CASE IsPhase(e.m) /\ ~cont -> [t1 EXCEPT !.stage = "phase", !.phases = @ + 1]
                   [] IsPhase(e.m)          -> t1
                   [] IsPlanCb(e.m)         -> [t1 EXCEPT !.stage = "plancb"]
@@ -471,7 +476,7 @@ CheckRet(tk, e, tk2) ==
     \cup V(actv \/ tk.op = "re" => tk.ent # NONE, "C01", "activation did not enter a state")
     \cup V(tk.op \notin {"exit", "dtor", "enter", "ctor", "re", "load"} => (tk.ent # NONE) = (a0 # NONE), "C01", "the machine was activated or deactivated by an operation that must not do so")
     \* ---- C02: outcome of processing
-    \cup V(tk.dpos = 0 \/ DEnd([m |-> tk.dm, s |-> tk.ds, j |-> SubOrder(tk.dm, tk.ds)[tk.dpos]]), "C15", "a delivery ended before every injection and the state's own callback were invoked")
+    \cup V(tk.dpos = 0 \/ tk.dpos = Len(SubOrder(tk.dm, tk.ds)), "C15", "a delivery ended before every injection and the state's own callback were invoked")
     \cup V(proc /\ sv # NoT => tk.life = LifeFor(a0, sv[2]) /\ e.act = sv[2], "C02", "the active state is not the destination of the most recent request that survived its guards (reached by exit+enter, or reenter)")
     \cup V(proc /\ sv = NoT => tk.life = <<>> /\ e.act = a0, "C02", "enter/exit/reenter ran or the active state changed although no request survived")
     \cup V(tk.op \in PassiveOps => tk.life = <<>> /\ e.act = a0, "C02", "a request changed the active state at the moment it was made")
